@@ -116,6 +116,7 @@ let hops_of_wop (kind : char) (arg : string) : hop list =
   match kind with
   | 's' | 'u' | 'f' -> [HWrite (unhex arg)]
   | 'l' -> [HWriteln (unhex arg)]
+  | 'c' -> List.map (fun c -> HWrite c) (chars_of (unhex arg))
   | 't' -> title_hops (unhex arg)
   | 'e' -> (match String.split_on_char '.' arg with
             | [a; b; c] -> list_element_hops (unhex a) (unhex b) (nat_of_int (int_of_string c))
